@@ -230,4 +230,34 @@ Theorem C04_replacement_witness :
   sh_tun (fst (rrun fixed_variant ex_db2 (rinit repl_threads) [0; 0; 1; 1]%nat)) 9 = Some {| b_mid := 2; b_src := Some 2; b_tgt := Some 4 |}.
 Proof. exact replacement_witness. Qed.
 Print Assumptions C04_replacement_witness.
+
+(* (10) "Revoked, expired, inactive or unknown mappings never yield an attachment" and "only if it is authenticated", as headline
+   statements of their own (contrapositives of (1)): for every store, bridge map, routing table, connection and request, if the
+   mapping the tunnel belongs to is missing, revoked, expired or not active — or the connection is not authenticated — the
+   dispatcher's outcome is a refusal (no attachment of any kind, no success acknowledgement) *)
+Theorem C04_invalid_mapping_never_attaches :
+  forall cfg (d : db) tun rt (c : conn_id) (r : request),
+    match d (tunnel_mid tun rt r) with
+    | Some m => m_revoked m = true \/ m_expired m = true \/ m_active m = false
+    | None => True
+    end ->
+    refused (open current cfg d tun rt c r) = true.
+Proof. exact invalid_mapping_refused. Qed.
+Print Assumptions C04_invalid_mapping_never_attaches.
+
+Theorem C04_unauthenticated_never_attaches :
+  forall cfg (d : db) tun rt (c : conn_id) (r : request),
+    c_registered c = false \/ c_client c = 0 -> refused (open current cfg d tun rt c r) = true.
+Proof. exact unauthenticated_refused. Qed.
+Print Assumptions C04_unauthenticated_never_attaches.
+
+(* what is NOT claimed: "whoever is not attached received a failure acknowledgement".  (2) gives the failure acknowledgement for every
+   REFUSAL decided on arrival; a request that is admissible on arrival but finds nothing to attach to (or loses a race after its
+   acknowledgement: "already exists", late mapping-agreement test) has been acknowledged with success and is then dropped. *)
+Definition C04_every_unattached_request_gets_failure_ack_full_statement : Prop :=
+  forall cfg d tun rt c r, attaches (open current cfg d tun rt c r) = false -> open current cfg d tun rt c r = Refuse true.
+Theorem C04_every_unattached_request_gets_failure_ack_refuted :
+  ~ C04_every_unattached_request_gets_failure_ack_full_statement.
+Proof. exact unattached_not_always_refused. Qed.
+Print Assumptions C04_every_unattached_request_gets_failure_ack_refuted.
 Close Scope N_scope.
